@@ -794,6 +794,77 @@ theorem provider_gap_placeholders_are_none (sch : Schema) (style : Style → Str
 
 example : wOut.crown.gapsNone = true := provider_gap_placeholders_are_none wSch wStyle wFields wOut wOut_ok
 
+/-! ### which keys carry an omit_default sieve (added by the audit) -/
+
+/-- **omit_default selects exactly the defaulted fields it matches**: the sieve table the provider computes
+    (`make_sieves`) binds a path to `d` iff a field leaf sits at that path whose field has the default `d` and is
+    matched by `omit_default`. -/
+theorem sieves_exact (sch : Schema) (fields : List Field) (leaves : List (Path × Leaf)) (p : Path) (d : Val) :
+    (p, d) ∈ makeSieves sch fields leaves ↔
+      ∃ id f, (p, Leaf.field id) ∈ leaves ∧ fields.find? (fun g => g.id == id) = some f ∧ f.default = some d ∧
+        sch.omitDefault f = true := by
+  unfold makeSieves
+  simp only [List.mem_filterMap]
+  constructor
+  · rintro ⟨⟨q, l⟩, hmem, h⟩
+    cases l with
+    | none => simp at h
+    | field id =>
+      simp only [] at h
+      cases hf : fields.find? (fun g => g.id == id) with
+      | none => simp [hf] at h
+      | some f =>
+        cases hd : f.default with
+        | none => simp [hf, hd] at h
+        | some d' =>
+          by_cases ho : sch.omitDefault f = true
+          · simp only [hf, hd, ho, ↓reduceIte, Option.some.injEq, Prod.mk.injEq] at h
+            obtain ⟨rfl, rfl⟩ := h
+            exact ⟨id, f, hmem, hf, hd, ho⟩
+          · simp [hf, hd, ho] at h
+  · rintro ⟨id, f, hmem, hf, hd, ho⟩
+    exact ⟨(p, .field id), hmem, by simp [hf, hd, ho]⟩
+
+example : makeSieves wSch wFields wLeaves = [([.s "d"], .int 7)] := rfl
+
+/-- **a sieve sits only where omit_default put it** (top-level keys of a dict layout built by the provider):
+    if the built output crown carries a sieve with default `d` at the key `k`, then a field leaf sits at `k`
+    whose field has the default `d` and is matched by `omit_default`. -/
+theorem out_sieve_sound_toplevel (sch : Schema) (style : Style → String → String) (fields : List Field)
+    (l : OutLayout) (h : outputLayout sch style fields = .ok l) (k : String) (d : Val)
+    (hs : l.crown.sieveAt [.s k] = some d) :
+    ∃ id f, ([Key.s k], Leaf.field id) ∈ l.crown.leaves ∧ fields.find? (fun g => g.id == id) = some f ∧
+      f.default = some d ∧ sch.omitDefault f = true := by
+  obtain ⟨lv, hlv, hmem⟩ := outputLayout_inv sch style fields l h
+  unfold outputLayout at h
+  simp only [bind, Except.bind, pure, Except.pure, hlv] at h
+  have key : ∀ crown : Crown, l.crown = crown.toOut (makeSieves sch fields lv) [] →
+      ∃ id f, ([Key.s k], Leaf.field id) ∈ l.crown.leaves ∧ fields.find? (fun g => g.id == id) = some f ∧
+        f.default = some d ∧ sch.omitDefault f = true := by
+    intro crown hcr
+    rw [hcr] at hs
+    cases crown with
+    | dict m =>
+      simp only [Crown.toOut, OutCrown.sieveAt, List.isEmpty_nil, ↓reduceIte, lookup_goS, List.nil_append] at hs
+      split at hs
+      · obtain ⟨id, f, h1, h2, h3, h4⟩ := (sieves_exact sch fields lv [.s k] d).mp (mem_of_lookup _ _ _ hs)
+        exact ⟨id, f, (hmem _).mpr h1, h2, h3, h4⟩
+      · simp at hs
+    | list m => simp [Crown.toOut, OutCrown.sieveAt] at hs
+    | leaf lf => cases lf <;> simp [Crown.toOut, OutCrown.sieveAt] at hs
+  split at h
+  · simp only [Except.ok.injEq] at h
+    exact key _ (by rw [← h])
+  · split at h
+    · simp at h
+    · simp only [Except.ok.injEq] at h
+      exact key _ (by rw [← h])
+
+/-- witness: the built layout carries the sieve of `d` (default 7, selected by omit_default), found by the theorem -/
+example : ∃ id f, ([Key.s "d"], Leaf.field id) ∈ wOut.crown.leaves ∧ wFields.find? (fun g => g.id == id) = some f ∧
+    f.default = some (.int 7) ∧ wSch.omitDefault f = true :=
+  out_sieve_sound_toplevel wSch wStyle wFields wOut wOut_ok "d" (.int 7) rfl
+
 /-- **List layouts fill gaps with `None`**: a list node is dumped to a list of exactly the length of
     the crown's map, whose positions that no field is mapped to hold the placeholder. -/
 theorem list_gaps_are_none (cfg : DumpCfg) (obj vals : List (String × Val)) (m : List OutCrown) (i : Nat)
